@@ -76,6 +76,9 @@ struct quill::Codec<Bomb> : quill::DeferredFormatCodec<Bomb>
 {
 };
 
+static std::map<long, std::string> g_expected;   // statement id -> message text the call site expects (where defined)
+static std::mutex g_expm;
+
 // ------------------------------------------------------------------ recording sink / filter
 static long parse_id(std::string_view msg)
 {
@@ -95,8 +98,9 @@ struct RecSink : quill::Sink
   int throw_kind{1};
   long nwrite{0}, nflush{0};
   bool full_text{false};
+  bool has_override{false};
   explicit RecSink(std::string n, std::optional<quill::PatternFormatterOptions> o = std::nullopt)
-    : quill::Sink(std::move(o)), name(std::move(n)) {}
+    : quill::Sink(o), name(std::move(n)), has_override(o.has_value()) {}
   ~RecSink() override { Ev e{"SinkDestroyed"}; e.s("s", name); }
 
   void write_log(quill::MacroMetadata const* md, uint64_t ts, std::string_view thread_id, std::string_view,
@@ -111,6 +115,16 @@ struct RecSink : quill::Sink
       e.s("s", name).i("id", parse_id(msg)).i("lvl", static_cast<int>(lvl)).s("lg", logger_name)
         .u("ts", (ts - vs::kBaseNs) / vs::kUnitNs).i("n", nwrite).b("thr", thr).s("tid", thread_id)
         .s("ld", lvl_desc).i("mlen", static_cast<long long>(msg.size()));
+      long const sid = parse_id(msg);
+      bool intact = true;
+      {
+        std::lock_guard<std::mutex> l{g_expm};
+        auto it = g_expected.find(sid);
+        if (it != g_expected.end()) intact = (msg == it->second);
+      }
+      // the harness' patterns: loggers use "%(message)", override sinks "OV %(message)"
+      std::string want = (has_override ? std::string{"OV "} : std::string{}) + std::string{msg} + "\n";
+      e.b("intact", intact).b("fmt", stmt == want).i("nnamed", named ? static_cast<long long>(named->size()) : 0);
       if (full_text) { e.s("msg", msg).s("stmt", stmt); }
       else { e.s("msg", msg.substr(0, 24)).s("stmt", stmt.substr(0, 48)); }
       if (named && !named->empty())
@@ -167,6 +181,7 @@ static quill::BackendOptions g_bopts;
 static std::deque<quill::MacroMetadata> g_rt_md;
 static std::deque<std::string> g_rt_strs;
 static long g_argevals = 0;
+
 
 static int argeval(int id)
 {
@@ -328,6 +343,13 @@ static void op_log(vs::LT* lt, VLogger* lg, std::map<std::string, std::string> a
   (void)ctx0;
   { Ev e{"LogCall"}; e.s("t", lt->name).i("id", id).s("lg", lg->get_logger_name()).i("lvl", lvl).s("kind", kind).u("pad", pad); }
   int ret = -1;   // -1 unknown (macro), 0 false, 1 true, 2 = filtered by logger level
+  {
+    std::lock_guard<std::mutex> l{g_expm};
+    if (kind == "direct" || kind == "dyn" || kind == "macro" || kind == "dynmacro" || kind == "named")
+      g_expected[id] = "m" + std::to_string(id) + " " + padstr;
+    else if (kind == "cstr") g_expected[id] = "m" + std::to_string(id) + " " + padstr + " " + std::to_string(id * 7);
+    else if (kind == "bombok") g_expected[id] = "m" + std::to_string(id) + " " + padstr + " bomb";
+  }
   bool threw = false;
   std::string what;
   try
@@ -382,6 +404,24 @@ static void op_log(vs::LT* lt, VLogger* lg, std::map<std::string, std::string> a
       static constexpr quill::MacroMetadata md{"h_sys.cpp:3", "op", "m{} {} {}", nullptr, LogLevel::Info,
                                                quill::MacroMetadata::Event::Log};
       Bomb b{kind == "bombstd" ? 1 : (kind == "bombint" ? 2 : 0), id};
+      ret = lg->template log_statement<false, false>(LogLevel::None, &md, id, padstr, b) ? 1 : 0;
+    }
+    else if (kind == "cstr")
+    {
+      // a C-string argument goes through the per-thread size cache (strlen computed once, reused by the encoder)
+      static constexpr quill::MacroMetadata md{"h_sys.cpp:5", "op", "m{} {} {}", nullptr, LogLevel::Info,
+                                               quill::MacroMetadata::Event::Log};
+      char const* cs = padstr.c_str();
+      if (lg->should_log_statement(LogLevel::Info))
+        ret = lg->template log_statement<false, false>(LogLevel::None, &md, argeval(id), cs, id * 7) ? 1 : 0;
+      else
+        ret = 2;
+    }
+    else if (kind == "namedbomb")
+    {
+      static constexpr quill::MacroMetadata md{"h_sys.cpp:6", "op", "m{id} {pad} {b}", nullptr, LogLevel::Info,
+                                               quill::MacroMetadata::Event::Log};
+      Bomb b{2, id};
       ret = lg->template log_statement<false, false>(LogLevel::None, &md, id, padstr, b) ? 1 : 0;
     }
     else if (kind == "named")
@@ -515,6 +555,7 @@ static int run_script(std::istream& in)
     {
       auto a = kv(tok, 2);
       std::optional<quill::PatternFormatterOptions> ov;
+      if (geti(a, "ov", 0)) ov = quill::PatternFormatterOptions{"OV %(message)"};
       if (a.count("pattern"))
       {
         std::string p = gets(a, "pattern");
@@ -531,7 +572,8 @@ static int run_script(std::istream& in)
       if (!geti(a, "nohold", 0)) g_sinks[tok[1]] = s;
       else { g_sinks[tok[1]] = s; }
       Ev e{"SinkCreated"};
-      e.s("s", tok[1]).b("same", s.get() == g_sinks[tok[1]].get()).i("lvl", geti(a, "lvl", 0)).s("tw", gets(a, "tw")).s("tf", gets(a, "tf"));
+      e.s("s", tok[1]).b("same", s.get() == g_sinks[tok[1]].get()).i("lvl", geti(a, "lvl", 0)).s("tw", gets(a, "tw")).s("tf", gets(a, "tf"))
+        .b("ov", geti(a, "ov", 0) != 0);
     }
     else if (c == "dropsink")
     {
